@@ -261,3 +261,232 @@ End SingleP.
    dict cannot represent) is rejected by the model checker *)
 Lemma own_complement_needs_unique_keys : dfa_wf D_dupkey /\ check_dfa_complement D_dupkey (dfa_complement D_dupkey) = false.
 Proof. split; [exact D_dupkey_wf | vm_compute; reflexivity]. Qed.
+
+(* ================================================================= product *)
+Section ProductP.
+  Context {A B : Type} `{Eqb A} `{Eqb B}.
+
+  (* what a successful dfa_product looks like *)
+  Lemma dfa_product_Some (ptype : nat) (D1 : dfa A) (D2 : dfa B) (D : dfa (A * B)) : dfa_product ptype D1 D2 = Some D ->
+    seteq (dS D1) (dS D2) /\ dS D = dS D1 /\ dQ D = list_prod (dQ D1) (dQ D2) /\ dq0 D = (dq0 D1, dq0 D2) /\
+    dF D = filter (prod_final ptype D1 D2) (list_prod (dQ D1) (dQ D2)) /\
+    (forall q a t, In ((q, a), t) (dD D) ->
+       In q (list_prod (dQ D1) (dQ D2)) /\ In a (dS D1) /\
+       ddelta D1 (fst q) a = Some (fst t) /\ ddelta D2 (snd q) a = Some (snd t) /\ ddelta D q a = Some t) /\
+    (forall q a x y, In q (list_prod (dQ D1) (dQ D2)) -> In a (dS D1) ->
+       ddelta D1 (fst q) a = Some x -> ddelta D2 (snd q) a = Some y -> ddelta D q a = Some (x, y)).
+  Proof.
+    unfold dfa_product. destruct (seteqb (dS D1) (dS D2)) eqn:Es; cbn [negb]; [|discriminate].
+    apply seteqb_seteq in Es.
+    set (states := list_prod (dQ D1) (dQ D2)).
+    set (g := fun pa : (A * B) * nat =>
+                match ddelta D1 (fst (fst pa)) (snd pa), ddelta D2 (snd (fst pa)) (snd pa) with
+                | Some x, Some y => Some (pa, (x, y))
+                | _, _ => None
+                end).
+    destruct (all_some (map g (list_prod states (dS D1)))) as [delta|] eqn:Hdelta; [|discriminate].
+    intros E. inversion E; subst D; clear E. cbn [dS dQ dq0 dF dD].
+    assert (Hgfst : forall x y, g x = Some y -> fst y = x).
+    { intros x y. unfold g. destruct (ddelta D1 (fst (fst x)) (snd x)); [|discriminate].
+      destruct (ddelta D2 (snd (fst x)) (snd x)); [|discriminate].
+      intros E; inversion E; reflexivity. }
+    assert (Hlk : forall q a x y, In q states -> In a (dS D1) ->
+       ddelta D1 (fst q) a = Some x -> ddelta D2 (snd q) a = Some y -> lookup (q, a) delta = Some (x, y)).
+    { intros q a x y Hq Ha E1 E2.
+      assert (Hin : In (q, a) (list_prod states (dS D1))) by (apply in_prod_iff; split; assumption).
+      destruct (all_some_map_lookup g _ Hdelta Hgfst _ Hin) as [v [Hv Hl]].
+      unfold g in Hv. cbn [fst snd] in Hv. rewrite E1, E2 in Hv. inversion Hv; subst v. exact Hl. }
+    split; [exact Es|]. split; [reflexivity|]. split; [reflexivity|]. split; [reflexivity|]. split; [reflexivity|].
+    split.
+    - intros q a t Hi. apply (all_some_map_In g _ Hdelta) in Hi. destruct Hi as [pa [Hpa Hgpa]].
+      pose proof (Hgfst _ _ Hgpa) as Efst. cbn [fst] in Efst. subst pa.
+      apply in_prod_iff in Hpa. destruct Hpa as [Hq Ha].
+      unfold g in Hgpa. cbn [fst snd] in Hgpa.
+      destruct (ddelta D1 (fst q) a) as [x|] eqn:E1; [|discriminate].
+      destruct (ddelta D2 (snd q) a) as [y|] eqn:E2; [|discriminate].
+      inversion Hgpa; subst t. cbn [fst snd].
+      split; [exact Hq|]. split; [exact Ha|]. split; [reflexivity|]. split; [reflexivity|].
+      unfold ddelta at 1. cbn [dD]. apply Hlk; assumption.
+    - intros q a x y Hq Ha E1 E2. unfold ddelta. cbn [dD]. apply Hlk; assumption.
+  Qed.
+
+  Lemma check_product_automaton_spec (D : dfa (A * B)) (D1 : dfa A) (D2 : dfa B) (answer : dfa (A * B)) :
+    check_product_automaton D D1 D2 answer = true <->
+    (forall q, In q (dQ answer) -> In (fst q) (dQ D1) /\ In (snd q) (dQ D2)) /\
+    seteq (dS D) (dS answer) /\ dq0 answer = dq0 D /\
+    (forall q a q1, In ((q, a), q1) (dD answer) -> forall t, ddelta D q a = Some t -> q1 = t) /\
+    seteq (dF D) (dF answer).
+  Proof.
+    unfold check_product_automaton. rewrite !andb_true_iff, !forallb_forall, seteqb_seteq, eqb_eq, !subsetb_incl.
+    split.
+    - intros [[[[[HQ HS] Hq0] HD] HF1] HF2]. split; [|split; [exact HS|split; [exact Hq0|split]]].
+      + intros q Hq. specialize (HQ q Hq). apply andb_true_iff in HQ. rewrite !mem_In in HQ. exact HQ.
+      + intros q a q1 Hi t Ht. specialize (HD _ Hi). cbn beta iota in HD. rewrite Ht in HD. apply eqb_true in HD. exact HD.
+      + intros q. split; [apply HF1 | apply HF2].
+    - intros (HQ & HS & Hq0 & HD & HF). split; [split; [split; [split; [split|]|]|]|].
+      + intros q Hq. apply andb_true_iff. rewrite !mem_In. apply HQ; exact Hq.
+      + exact HS.
+      + exact Hq0.
+      + intros [[q a] q1] Hi. destruct (ddelta D q a) as [t|] eqn:Et; [|reflexivity].
+        rewrite (HD q a q1 Hi t Et). apply eqb_refl.
+      + intros q Hq. apply HF; exact Hq.
+      + intros q Hq. apply HF; exact Hq.
+  Qed.
+
+  Theorem check_dfa_product_sound (ptype n : nat) (D1 : dfa A) (D2 : dfa B) (answer : dfa (A * B)) :
+    dfa_wf D1 -> dfa_wf D2 -> dfa_wf answer -> check_dfa_product ptype n D1 D2 answer = true ->
+    exists D, dfa_product ptype D1 D2 = Some D /\
+      (forall q, In q (dQ answer) -> In (fst q) (dQ D1) /\ In (snd q) (dQ D2)) /\
+      seteq (dS D1) (dS answer) /\ dq0 answer = (dq0 D1, dq0 D2) /\
+      (forall q a q1, In ((q, a), q1) (dD answer) -> forall t, ddelta D q a = Some t -> q1 = t) /\
+      (forall q1 q2 a t, In (((q1, q2), a), t) (dD answer) ->
+         ddelta D1 q1 a = Some (fst t) /\ ddelta D2 q2 a = Some (snd t)) /\
+      (forall q, In q (dF answer) <-> In (fst q) (dQ D1) /\ In (snd q) (dQ D2) /\ prod_final ptype D1 D2 q = true) /\
+      (forall w, length w <= n -> Forall (fun a => In a (dS D1)) w ->
+         (dfa_lang answer w <-> match ptype with
+                                | 0 => dfa_lang D1 w \/ dfa_lang D2 w
+                                | 1 => dfa_lang D1 w /\ dfa_lang D2 w
+                                | _ => (dfa_lang D1 w /\ ~ dfa_lang D2 w) \/ (~ dfa_lang D1 w /\ dfa_lang D2 w)
+                                end)).
+  Proof.
+    intros Hwf1 Hwf2 Hwfa Hc. unfold check_dfa_product in Hc.
+    destruct (dfa_product ptype D1 D2) as [D|] eqn:EP; [|discriminate].
+    destruct (dfa_words_lang D1 n Hwf1) as (L1 & EL1 & HL1).
+    destruct (dfa_words_lang D2 n Hwf2) as (L2 & EL2 & HL2).
+    destruct (dfa_words_lang answer n Hwfa) as (L & EL & HL).
+    rewrite EL1, EL2, EL in Hc. apply andb_true_iff in Hc. destruct Hc as [Hca Hlang].
+    apply check_product_automaton_spec in Hca. destruct Hca as (HQ & HS & Hq0 & HD & HF).
+    destruct (dfa_product_Some _ _ _ EP) as (Hse & ES & EQ & Eq0 & EF & Hent & Hlk).
+    rewrite ES in HS. rewrite Eq0 in Hq0.
+    exists D. split; [reflexivity|]. split; [exact HQ|]. split; [exact HS|]. split; [exact Hq0|]. split; [exact HD|].
+    split; [|split].
+    - intros q1 q2 a t Hi.
+      destruct Hwfa as (_ & _ & Hda & _). destruct (Hda _ _ _ Hi) as (Hq & Ha & _).
+      destruct (HQ _ Hq) as [Hq1 Hq2]. cbn [fst snd] in Hq1, Hq2. apply HS in Ha.
+      destruct (dfa_wf_step q1 a Hwf1 Hq1 Ha) as [E1 _].
+      destruct (dfa_wf_step q2 a Hwf2 Hq2 (proj1 (Hse a) Ha)) as [E2 _].
+      assert (Hst : In (q1, q2) (list_prod (dQ D1) (dQ D2))) by (apply in_prod_iff; split; assumption).
+      pose proof (Hlk (q1, q2) a _ _ Hst Ha E1 E2) as Ek.
+      rewrite (HD _ _ _ Hi _ Ek). cbn [fst snd]. split; assumption.
+    - intros q. rewrite <- (HF q), EF, filter_In. destruct q as [q1 q2]. rewrite in_prod_iff. cbn [fst snd]. tauto.
+    - intros w Hl Hw.
+      assert (Hw2 : Forall (fun a => In a (dS D2)) w) by (apply (Forall_seteq Hse); exact Hw).
+      assert (Hwa : Forall (fun a => In a (dS answer)) w) by (apply (Forall_seteq HS); exact Hw).
+      apply lang_ok_spec in Hlang. specialize (Hlang w).
+      assert (EA : In w L <-> dfa_lang answer w) by (rewrite HL; tauto).
+      assert (E1 : In w L1 <-> dfa_lang D1 w) by (rewrite HL1; tauto).
+      assert (E2 : In w L2 <-> dfa_lang D2 w) by (rewrite HL2; tauto).
+      rewrite <- EA, Hlang. destruct ptype as [|[|k]].
+      + rewrite l_union_spec, E1, E2. reflexivity.
+      + rewrite l_intersection_spec, E1, E2. reflexivity.
+      + rewrite l_symmetric_difference_spec, E1, E2. tauto.
+  Qed.
+
+  Theorem own_product_accepted (ptype n : nat) (D1 : dfa A) (D2 : dfa B) (D : dfa (A * B)) :
+    dfa_wf D1 -> dfa_wf D2 -> dfa_product ptype D1 D2 = Some D -> check_dfa_product ptype n D1 D2 D = true.
+  Proof.
+    intros Hwf1 Hwf2 EP.
+    destruct (dfa_product_Some _ _ _ EP) as (Hse & ES & EQ & Eq0 & EF & Hent & Hlk).
+    destruct (@product_correct _ _ _ _ ptype D1 D2 Hwf1 Hwf2 Hse) as (D' & EP' & HwfD & _ & Hlang).
+    rewrite EP in EP'. inversion EP'; subst D'; clear EP'.
+    unfold check_dfa_product. rewrite EP.
+    destruct (dfa_words_lang D1 n Hwf1) as (L1 & EL1 & HL1).
+    destruct (dfa_words_lang D2 n Hwf2) as (L2 & EL2 & HL2).
+    destruct (dfa_words_lang D n HwfD) as (L & EL & HL).
+    rewrite EL1, EL2, EL. apply andb_true_iff. split.
+    - apply check_product_automaton_spec. split; [|split; [apply seteq_refl|split; [reflexivity|split; [|apply seteq_refl]]]].
+      + intros [q1 q2] Hq. rewrite EQ in Hq. apply in_prod_iff in Hq. exact Hq.
+      + intros q a q1 Hi t Ht. destruct (Hent _ _ _ Hi) as (_ & _ & _ & _ & Ek). congruence.
+    - apply lang_ok_spec. intros w. rewrite HL, ES.
+      assert (E12 : forall w, Forall (fun a => In a (dS D1)) w <-> Forall (fun a => In a (dS D2)) w).
+      { intros v. split; apply Forall_seteq; [exact Hse | intros a; symmetry; apply Hse]. }
+      destruct ptype as [|[|k]].
+      + rewrite l_union_spec, HL1, HL2. split.
+        * intros (Hl & Hw & Hd). apply (Hlang w Hw) in Hd. pose proof (proj1 (E12 w) Hw). tauto.
+        * intros [(Hl & Hw & Hd)|(Hl & Hw & Hd)]; [|apply E12 in Hw]; (split; [exact Hl|split; [exact Hw|]]);
+            apply (Hlang w Hw); tauto.
+      + rewrite l_intersection_spec, HL1, HL2. split.
+        * intros (Hl & Hw & Hd). apply (Hlang w Hw) in Hd. pose proof (proj1 (E12 w) Hw). tauto.
+        * intros [(Hl & Hw & Hd) (_ & _ & Hd2)]. split; [exact Hl|split; [exact Hw|]]. apply (Hlang w Hw); tauto.
+      + rewrite l_symmetric_difference_spec, HL1, HL2. split.
+        * intros (Hl & Hw & Hd). apply (Hlang w Hw) in Hd. pose proof (proj1 (E12 w) Hw). tauto.
+        * intros [[(Hl & Hw & Hd) Hn]|[(Hl & Hw & Hd) Hn]]; [|apply E12 in Hw]; (split; [exact Hl|split; [exact Hw|]]);
+            apply (Hlang w Hw); pose proof (proj1 (E12 w) Hw); tauto.
+  Qed.
+End ProductP.
+
+(* ================================================================= CYK matrix *)
+Lemma nth_map_seq {X} (f : nat -> X) (s n i : nat) (d : X) : i < n -> nth i (map f (seq s n)) d = f (s + i).
+Proof.
+  intros Hi. rewrite (nth_indep _ d (f 0)) by (rewrite map_length, seq_length; exact Hi).
+  rewrite map_nth. rewrite seq_nth by exact Hi. reflexivity.
+Qed.
+
+(* the rows of the answer are written top-down: row k (k = 0 is the top row, the longest spans) has k+1 cells and its
+   cell j is X[j, j + (n-1-k)]; in the theorem i = n-1-k is the span, so that the cell is X[j, j+i] = the set of
+   variables deriving w[j..j+i] *)
+Theorem check_cyk_matrix_sound (G : cfg) (w : word) (rows : list (list (list nat))) :
+  is_chomsky G -> cfg_wf G -> check_cyk_matrix G w rows = true ->
+  length rows = length w /\
+  (forall k, k < length w -> length (nth k rows []) = S k) /\
+  (forall k j A, In A (nth j (nth k rows []) []) -> In A (gV G)) /\
+  forall i j, i + j < length w ->
+    forall A, In A (nth j (nth (length w - 1 - i) rows []) []) <-> In A (gV G) /\ yields G (Var A) (subword w j (i + j)).
+Proof.
+  intros Hc Hwf Hchk. unfold check_cyk_matrix in Hchk.
+  apply andb_true_iff in Hchk. destruct Hchk as [Hchk H4].
+  apply andb_true_iff in Hchk. destruct Hchk as [Hchk H3].
+  apply andb_true_iff in Hchk. destruct Hchk as [H1 H2].
+  apply Nat.eqb_eq in H1.
+  pose proof (proj1 (forallb_combine_seq _ [] rows 0) H2) as H2'. cbn [fst snd Nat.add] in H2'.
+  split; [exact H1|]. split; [|split].
+  - intros k Hk. apply Nat.eqb_eq. apply H2'. lia.
+  - intros k j A HA. rewrite forallb_forall in H3.
+    destruct (Nat.lt_ge_cases k (length rows)) as [Hk|Hk].
+    + assert (Hrow : In (nth k rows []) rows) by (apply nth_In; exact Hk).
+      specialize (H3 _ Hrow). rewrite forallb_forall in H3.
+      destruct (Nat.lt_ge_cases j (length (nth k rows []))) as [Hj|Hj].
+      * assert (Hcell : In (nth j (nth k rows []) []) (nth k rows [])) by (apply nth_In; exact Hj).
+        specialize (H3 _ Hcell). apply subsetb_incl in H3. apply H3. exact HA.
+      * rewrite (nth_overflow _ _ Hj) in HA. destruct HA.
+    + rewrite (nth_overflow rows [] Hk) in HA. destruct j; destruct HA.
+  - intros i j Hij A.
+    rewrite <- (rev_length rows) in H4.
+    pose proof (proj1 (forallb_combine_seq _ [] (rev rows) 0) H4 i) as H4'. cbn [Nat.add] in H4'.
+    rewrite rev_length in H4'. specialize (H4' ltac:(lia)). cbn beta iota in H4'.
+    rewrite rev_nth in H4' by lia.
+    replace (length rows - S i) with (length w - 1 - i) in H4' by lia.
+    pose proof (proj1 (forallb_combine_seq _ [] (nth (length w - 1 - i) rows []) 0) H4' j) as H5. cbn [Nat.add] in H5.
+    assert (Hlen : length (nth (length w - 1 - i) rows []) = S (length w - 1 - i)).
+    { apply Nat.eqb_eq. apply H2'. lia. }
+    rewrite Hlen in H5. specialize (H5 ltac:(lia)). cbn beta iota in H5.
+    apply seteqb_seteq in H5. rewrite (H5 A). apply cyk_cell_exact; [exact Hc | exact Hwf | lia | lia].
+Qed.
+
+(* the library's own matrix in the layout of the exercise *)
+Definition cyk_rows (G : cfg) (w : word) : list (list (list nat)) :=
+  map (fun i => map (fun j => cget (cyk G w) j (j + (length w - 1 - i))) (seq 0 (S i))) (seq 0 (length w)).
+
+Theorem own_cyk_accepted (G : cfg) (w : word) : is_chomsky G -> cfg_wf G -> check_cyk_matrix G w (cyk_rows G w) = true.
+Proof.
+  intros Hc Hwf. unfold check_cyk_matrix.
+  assert (Hlen : length (cyk_rows G w) = length w) by (unfold cyk_rows; rewrite map_length, seq_length; reflexivity).
+  assert (Hrow : forall i, i < length w -> nth i (cyk_rows G w) [] =
+                 map (fun j => cget (cyk G w) j (j + (length w - 1 - i))) (seq 0 (S i))).
+  { intros i Hi. unfold cyk_rows. rewrite nth_map_seq by exact Hi. reflexivity. }
+  apply andb_true_iff. split; [apply andb_true_iff; split; [apply andb_true_iff; split|]|].
+  - rewrite Hlen. apply Nat.eqb_refl.
+  - apply (forallb_combine_seq _ []). intros i Hi. cbn [fst snd Nat.add]. rewrite Hlen in Hi.
+    rewrite (Hrow i Hi), map_length, seq_length. apply Nat.eqb_refl.
+  - apply forallb_forall. intros row Hr. unfold cyk_rows in Hr. apply in_map_iff in Hr.
+    destruct Hr as (i & <- & Hi). apply in_seq in Hi.
+    apply forallb_forall. intros cell Hcell. apply in_map_iff in Hcell. destruct Hcell as (j & <- & Hj). apply in_seq in Hj.
+    apply subsetb_incl. intros A HA.
+    apply (cyk_cell_exact G w j (j + (length w - 1 - i)) A Hc Hwf) in HA; [tauto | lia | lia].
+  - rewrite <- (rev_length (cyk_rows G w)). apply (forallb_combine_seq _ []). intros i Hi. cbn [Nat.add].
+    rewrite rev_length, Hlen in Hi. rewrite rev_nth by (rewrite Hlen; exact Hi). rewrite Hlen.
+    rewrite (Hrow (length w - S i)) by lia.
+    apply (forallb_combine_seq _ []). intros j Hj. cbn [Nat.add]. rewrite map_length, seq_length in Hj.
+    rewrite nth_map_seq by exact Hj. cbn [Nat.add].
+    replace (j + (length w - 1 - (length w - S i))) with (i + j) by lia. apply seteqb_refl.
+Qed.
